@@ -43,8 +43,27 @@ void on_event(int id, error_code const& ec)
 		// nothing was ready: the clock may have jumped, exactly to the earliest pending expiry
 		// (staying put when that is not in the future)
 		bool any = false; long m = 0;
+		for (;;)
+		{
+			any = false; int mi = -1;
+			for (int i = 0; i < NT; ++i)
+				if (g_st[i].pending && (!any || g_st[i].expiry < m)) { any = true; m = g_st[i].expiry; mi = i; }
+			// a timer that was armed but never waited on expires silently: the clock still jumps to it
+			if (any && g_st[mi].id < 0 && m <= now)
+			{
+				bool earlier_waiter = false;
+				for (int i = 0; i < NT; ++i) if (g_st[i].pending && g_st[i].id >= 0 && g_st[i].expiry <= m) earlier_waiter = true;
+				if (earlier_waiter) break;
+				g_st[mi].pending = false;
+				if (m > g_last_now) g_last_now = m;
+				continue;
+			}
+			break;
+		}
+		// (waiting timers only from here on)
+		any = false;
 		for (int i = 0; i < NT; ++i)
-			if (g_st[i].pending && (!any || g_st[i].expiry < m)) { any = true; m = g_st[i].expiry; }
+			if (g_st[i].pending && g_st[i].id >= 0 && (!any || g_st[i].expiry < m)) { any = true; m = g_st[i].expiry; }
 		vp_assert(any, 2);
 		if (!any) return;
 		long const expect = m > g_last_now ? m : g_last_now;
@@ -56,6 +75,7 @@ void on_event(int id, error_code const& ec)
 			for (int i = 0; i < NT; ++i)
 			{
 				if (!g_st[i].pending || g_st[i].expiry > expect) continue;
+				if (g_st[i].id < 0) { g_st[i].pending = false; continue; }   // silent expiry
 				if (best < 0 || g_st[i].expiry < g_st[best].expiry
 					|| (g_st[i].expiry == g_st[best].expiry && g_st[i].seq < g_st[best].seq)) best = i;
 			}
@@ -85,7 +105,7 @@ void run_next_op()
 {
 	if (g_ops_done >= K) return;
 	++g_ops_done;
-	int const op = vp_choose(6);
+	int const op = vp_choose(8);
 	long const now = now_ns();
 	vp_log(2, op, now, 0);
 	if (op == 1 || op == 2)
@@ -112,12 +132,35 @@ void run_next_op()
 	{
 		if (g_in_run) { g_sim->stop(); ++g_stops; }
 	}
+	else if (op == 6)
+	{
+		// arm the first idle timer without waiting on it
+		int t = -1;
+		for (int i = 0; i < NT; ++i) if (!g_st[i].pending) { t = i; break; }
+		if (t < 0) return;
+		long const d = vp_sym_long(-(1L << 40), 1L << 40);
+		g_timer[t]->expires_at(time_point(duration(d)));
+		g_st[t].pending = true; g_st[t].expiry = d; g_st[t].seq = g_seq++; g_st[t].id = -1;
+	}
+	else if (op == 7)
+	{
+		// re-arm a timer that is armed without a wait, this time with a wait
+		int t = -1;
+		for (int i = 0; i < NT; ++i) if (g_st[i].pending && g_st[i].id < 0) { t = i; break; }
+		if (t < 0) return;
+		long const d = vp_sym_long(-(1L << 40), 1L << 40);
+		int const id = g_next_id++;
+		std::size_t const n = g_timer[t]->expires_at(time_point(duration(d)));
+		vp_assert(n == 0, 12);
+		g_st[t].expiry = d; g_st[t].seq = g_seq++; g_st[t].id = id;
+		g_timer[t]->async_wait([id](error_code const& ec) { on_event(id, ec); });
+	}
 	else if (op == 5)
 	{
 		// cancel the most recently armed timer that is still pending: its wait completes now (posted) with
 		// operation_aborted, and it no longer takes part in the clock's jumps
 		int t = -1;
-		for (int i = 0; i < NT; ++i) if (g_st[i].pending && (t < 0 || g_st[i].seq > g_st[t].seq)) t = i;
+		for (int i = 0; i < NT; ++i) if (g_st[i].pending && g_st[i].id >= 0 && (t < 0 || g_st[i].seq > g_st[t].seq)) t = i;
 		if (t < 0) return;
 		std::size_t const n = g_timer[t]->cancel();
 		vp_assert(n == 1, 11);
@@ -175,7 +218,11 @@ extern "C" int harness_main()
 	// quiescent: everything armed or posted has run exactly once, nothing is left
 	vp_assert(!s.stopped(), 22);
 	vp_assert(g_head == g_tail, 23);
-	for (int i = 0; i < NT; ++i) vp_assert(!g_st[i].pending, 24);
+	for (int i = 0; i < NT; ++i)
+	{
+		if (g_st[i].pending && g_st[i].id < 0) { if (g_st[i].expiry > g_last_now) g_last_now = g_st[i].expiry; g_st[i].pending = false; }
+		vp_assert(!g_st[i].pending, 24);
+	}
 	vp_assert(g_ran == g_next_id - 1, 25);
 	// a second run() after a quiescent return executes nothing and leaves the clock unchanged
 	long const t_end = now_ns();
